@@ -47,6 +47,7 @@ prop('C01', 'c01', '4 (C01)')
 prop('C02', 'c02', '4 (C02)')
 prop('C03', 'c03', '4 (C03)')
 prop('C04', 'c04', '4 (C04)')
+prop('C07', 'c07', '5 (C07)')
 prop('C10', 'c10', '5 (C10)')
 prop('C11', 'c11', '6 (C11)')
 prop('C13', 'c13', '6 (C13)')
